@@ -51,9 +51,14 @@ def run_job(job):
                      ("bob", users[1][1], "S1")]
             if tier == "thorough":
                 plan += [(u, pw, rnd.choice(["S1", "S2"])) for u, pw in users for _ in range(3)]
+            # identities of notable shapes (as long as a public key of the group, of the other groups, a digest, 255/256 bytes)
+            npk_ = s.sz.npk
+            fixed_ids = {"frank": (b"F" * npk_, None), "grace": (None, b"G" * npk_), "heidi": (b"H" * npk_, b"h" * npk_), "ivan": (b"I" * 32, b"i" * 33),
+                         "judy": (b"J" * 49, b"j" * 67), "karl": (b"K" * 64, b"k" * 48), "lena": (b"L" * 255, b"l" * 256)}
+            plan += [(u_, b"password of " + u_.encode() + b", long enough", ("S1", "S2")[k_ % 2]) for k_, u_ in enumerate(sorted(fixed_ids))]
             for u, pw, srv in plan:
                 nreg += 1
-                ids = rnd.choice([(None, None), (u.encode(), None), (u.encode(), b"srv")])
+                ids = fixed_ids.get(u) or rnd.choice([(None, None), (u.encode(), None), (u.encode(), b"srv")])
                 f = proto.register(s, rng, srv, pw, u.encode(), id_u=ids[0], id_s=ids[1], wire=bool(rnd.getrandbits(1)), tag="g%d" % nreg)
                 evals += 4
                 if not f.ok:
@@ -178,9 +183,14 @@ def run_job(job):
                     V("two distinct registrations returned the same export key", "degenerate-nonce registration %s and an ordinary one" % lab)
             # logins in random interleaving
             nlog = 60 if tier == "quick" else 200
-            for k in range(nlog):
-                r = rnd.choice(records)
-                ctx = rnd.choice([None, b"", b"ctx-%d" % k, b"z" * 300])
+            ctxs_ = [None, b"", b"z" * 300, b"y" * 255, b"x" * 256]
+            sched = [(r_, c_) for r_ in records for c_ in (ctxs_ if r_["user"] in fixed_ids or tier == "thorough" else ctxs_[:3])]
+            for k in range(len(sched) + nlog):
+                if k < len(sched):
+                    r, ctx = sched[k]
+                else:
+                    r = rnd.choice(records)
+                    ctx = rnd.choice([None, b"", b"ctx-%d" % k, b"z" * 300])
                 lg = proto.login(s, rng, rng, r["srv"], r["h"], r["pw"], r["user"].encode(), ctx_c=ctx, ctx_s=ctx, id_u_c=r["ids"][0], id_s_c=r["ids"][1],
                                  id_u_s=r["ids"][0], id_s_s=r["ids"][1], wire=bool(rnd.getrandbits(1)), tag="l%d" % k)
                 evals += 4
